@@ -97,10 +97,14 @@ Event(d, ch) ==
     /\ phas' = (phas /\ ~Crossed(d))
     /\ UNCHANGED <<chop, pmap, pinst>>
 
-Next == \/ \E m \in Maps, h \in Hops, r \in BOOLEAN : Reset2(m, h, r)
-        \/ \E m \in UMaps, r \in BOOLEAN : Reset1(m, r)
-        \/ \E m \in UMaps, k \in 1 .. 3 : MapInd(m, Counter(n + k))
-        \/ \E d \in Steps, ch \in AllCh : n + d <= NMax /\ Event(d, ch)
+\* model checking bound: the first NMax events and NMax events around the wrap of the 16 bit counter
+InBound(k) == k <= NMax \/ (k >= 65529 /\ k <= 65529 + NMax)
+
+Next == \/ chop = 0 /\ \E m \in Maps, h \in Hops : Reset2(m, h, Valid(m, h))
+        \/ chop # 0 /\ \E m \in {AllCh, {5}}, h \in {0, 7} : Reset2(m, h, Valid(m, h))    \* new connection / refused request
+        \/ \E m \in UMaps : Reset1(m, ValidMap(m))
+        \/ \E m \in UMaps, k \in {1, 3} : MapInd(m, Counter(n + k))
+        \/ \E d \in Steps : InBound(n + d) /\ \E ch \in AllCh : Event(d, ch)
 
 Spec == Init /\ [][Next]_vars
 
@@ -120,8 +124,9 @@ NeverInvalid == chop # 0 => Valid(cmap, chop)
 
 (* ------------------------------ model checking instance --------------------------- *)
 MCMaps    == {AllCh, {}, {36}, {0, 36}, {1, 2, 3}, 0 .. 18, {c \in AllCh : c % 2 = 0}, {c \in AllCh : c % 3 = 1}, 9 .. 11}
-             \cup {AllCh \ {a} : a \in AllCh} \cup {{a, (a + 9) % 37} : a \in AllCh}
-MCUMaps   == {AllCh, {5}, {}, {0, 36}, {c \in AllCh : c % 2 = 1}}
-MCHops    == {0, 4, 5, 7, 16, 17, 31}
-MCSteps   == {1, 2, 38, 65530}
+             \cup {AllCh \ {a} : a \in AllCh} \cup {{a, (a + 9) % 37} : a \in {0, 3, 7, 11, 19, 27, 28, 30, 35, 36}}
+MCQMaps   == {AllCh, {}, {36}, {0, 36}, {1, 2, 3}, 0 .. 18, {c \in AllCh : c % 3 = 1}, AllCh \ {0}, AllCh \ {17}, AllCh \ {36}, AllCh \ {8, 9}}
+MCUMaps   == {AllCh, {5}, {0, 36}, {c \in AllCh : c % 2 = 1}}
+MCHops    == {0, 5, 7, 16, 17}
+MCSteps   == {1, 2, 65530}
 =============================================================================
